@@ -184,7 +184,11 @@ def run_check(chk: PropertyCheck, tier: str) -> int:
         # 4. correspondence
         mismatches = []
         if model_ok and cases:
-            zc = [(chk.model_input(c), chk.obs_to_z(c, o)) for c, o in results]
+            # a check may keep some cases out of the model comparison (model_input -> None):
+            # those are judged by the property predicate only
+            compared = [(c, o) for c, o in results if chk.model_input(c) is not None]
+            rep.cov["cases_compared_with_model"] = len(compared)
+            zc = [(chk.model_input(c), chk.obs_to_z(c, o)) for c, o in compared]
             try:
                 bad_idx, _ = run_cases_in_coq(chk.pid, chk.model_imports, chk.run_expr, zc,
                                               shard=chk.shard, preamble=chk.case_preamble, in_ty=chk.case_type)
@@ -194,7 +198,7 @@ def run_check(chk: PropertyCheck, tier: str) -> int:
                 proof_broken = proof_broken or ("cases evaluation", str(e)[-800:])
             rep.cov["traces_validated_against_impl"] = len(zc) - len(bad_idx)
             rep.cov["disagreements"] = len(bad_idx)
-            mismatches = [results[i] for i in bad_idx]
+            mismatches = [compared[i] for i in bad_idx]
         chk.extra_checks(rep, tier, rng)
 
         broken = proof_broken is not None or bool(mismatches)
